@@ -15,3 +15,5 @@ pub use crate::message::{
 };
 pub use crate::stream::verif::{rewrite_timestamp_line, strip_sha_lookup};
 pub use crate::sanity::verif::{freshly_packed, unpushed};
+pub use crate::analysis::verif::{largest_files, top_n};
+pub use crate::detect::verif::{detect_values, draft, looks_binary_blob, normalize_detected_value};
